@@ -325,7 +325,8 @@ Proof. intros H1 H2. cbn. rewrite H1, H2. eauto. Qed.
 
 (* the manifest edit inside a longer program, whatever the Rust does with its errors (the three
    calls cannot fail for file-system reasons) *)
-Lemma mani_block_k m1 m2 m3 add rm rest s E E' P (Q : fs -> Prop) :
+Lemma mani_block_defer add rm rest s E E' P (Q : fs -> Prop) :
+  cleanup_like rest ->
   Good s E ->
   (forall x, In x add -> lookup (NSst x) s <> None) ->
   (forall e, In e E' <->
@@ -334,10 +335,13 @@ Lemma mani_block_k m1 m2 m3 add rm rest s E E' P (Q : fs -> Prop) :
   (E' = E \/ exists q, P = Some q /\ E' = E ++ q) ->
   (forall s', Good s' E' -> mani_strs s' = apply_edit (mani_strs s) (CkEdit add rm) ->
               (forall n, n <> NMani -> lookup n s' = lookup n s) -> walk rest s' E P Q) ->
-  walk ((COpenAppend NMani, m1) :: (CWrite NMani (CkEdit add rm), m2) :: (CSync NMani, m3) :: rest) s E P Q.
+  walk ((COpenAppend NMani, Defer 2) :: (CWrite NMani (CkEdit add rm), Defer 1) :: (CSync NMani, Defer 0) :: rest) s E P Q.
 Proof.
-  intros Hg Hadd HE HEE Hrest.
-  apply walk_any_cons; [now apply good_safe|cbn [exec]; destruct (lookup NMani s); eauto|]. intros s1 E1.
+  intros Hcl Hg Hadd HE HEE Hrest.
+  apply walk_defer_cons; [now apply good_safe|cbn [exec]; destruct (lookup NMani s); eauto| |].
+  2:{ apply dsafe_skip; [now apply good_safe|]. apply dsafe_skip; [now apply good_safe|].
+      apply dsafe_cleanup; [exact Hcl|apply Hg|now apply good_safe]. }
+  intros s1 E1.
   assert (H1 : wf s1 /\ lookup NMani s1 = Some (mani_file s) /\ (forall n, n <> NMani -> lookup n s1 = lookup n s)).
   { apply exec_openappend_inv in E1. destruct E1 as [[Hne ->]|[Hn ->]].
     - split; [apply Hg|]. split; [|reflexivity]. unfold mani_file. destruct (lookup NMani s); [reflexivity|congruence].
@@ -359,7 +363,9 @@ Proof.
     - intros e. rewrite (C e), Hstrs1. split; (intros [H|(n & f & H1 & H2)]; [now left|right]); exists n, f; (split; [|exact H2]).
       + now rewrite Ho1 by discriminate.
       + now rewrite Ho1 in H1 by discriminate. }
-  apply walk_any_cons; [now apply good_safe|cbn [exec]; rewrite Hm1; eauto|]. intros s2 E2.
+  apply walk_defer_cons; [now apply good_safe|cbn [exec]; rewrite Hm1; eauto| |].
+  2:{ apply dsafe_skip; [now apply good_safe|]. apply dsafe_cleanup; [exact Hcl|exact Hw1|now apply good_safe]. }
+  intros s2 E2.
   apply exec_write_inv in E2. destruct E2 as (f2 & L2 & ->). rewrite Hm1 in L2. inversion L2; subst f2. clear L2.
   set (mf := mani_file s) in *.
   set (S' := set NMani (mkFile (f_data mf ++ [CkEdit add rm]) (S (length (f_data mf)))) s1).
@@ -373,9 +379,10 @@ Proof.
       split; (intros [H|(n & f & H1 & H2)]; [now left|right]); exists n, f; (split; [|exact H2]).
       + now rewrite Ho1 by discriminate.
       + now rewrite Ho1 in H1 by discriminate. }
-  apply walk_any_cons.
-  { apply (pending_safe NMani s1 mf (CkEdit add rm) E E' P eq_refl Hg1 Hm1); [apply HgS|exact HEE]. }
-  { cbn [exec]. rewrite lookup_set, name_eqb_refl. eauto. }
+  assert (Hpend : Safe (set NMani (mkFile (f_data mf ++ [CkEdit add rm]) (f_dur mf)) s1) E P)
+    by (apply (pending_safe NMani s1 mf (CkEdit add rm) E E' P eq_refl Hg1 Hm1); [apply HgS|exact HEE]).
+  apply walk_defer_cons; [exact Hpend|cbn [exec]; rewrite lookup_set, name_eqb_refl; eauto| |].
+  2:{ apply dsafe_cleanup; [exact Hcl|apply wf_set; exact Hw1|exact Hpend]. }
   intros s3 E3. apply exec_sync_inv in E3. destruct E3 as (f3 & L3 & ->).
   rewrite lookup_set, name_eqb_refl in L3. inversion L3; subst f3. clear L3. cbn [f_data].
   match goal with |- walk rest ?st E P _ => set (s3 := st) end.
